@@ -106,8 +106,10 @@ def name_programs():
     import vyxal.encoding as enc
 
     out = []
-    from vyxal.lexer import Token, TokenType, tokenise
+    from vyxal.lexer import Token, TokenType
     from vyxal.parse import CLOSING_CHARACTERS, OPENING_CHARACTERS
+
+    tokenise = sandbox.tokenise
 
     for c in enc.codepage:
         if not re.match(r"\w", c):
